@@ -20,12 +20,18 @@ from ..seams_http import ScriptedStream, patched_httpx
 from ..vloop import new_loop
 
 RUN = "vf.checks.c15:run_one"
-TEXTS = ["plain", "\u00e9\u20ac\U0001F600", "line\nbreak\u2028\u0085\ttab", "nul\x00q\"b\\s"]
+TEXTS = ["plain", "\u00e9\u20ac\U0001F600", "line\nbreak\u2028\u0085\ttab", "nul\x00q\"b\\s",
+         # payload text that looks like an endpoint announcement to a careless reader of an untyped event
+         "see /messages/ and /mcp at http://x/mcp?a=1"]
+PATHY = 4
 HELPERS = ["initialize", "tools/list", "tools/call", "resources/read", "prompts/get", "ping"]
 # requests written to the write stream directly with a caller-chosen id (the helpers only ever use uuid strings)
 RAW_IDS = {"raw-id-0": 0, "raw-id-7": 7, "raw-id-neg": -1, "raw-id-digits": "7", "raw-id-empty": "", "raw-id-big": 2**53 + 1}
 ERRORS = [-32601, -32000, -32602]
 CARRIERS = ["stdio", "http-json", "http-sse", "legacy-sse", "legacy-sse-event-first"]
+# the same legacy carrier with UNTYPED events (no "event:" field: the default type "message" applies); run for the
+# conversations flagged "untyped" (all single steps, everything that carries an endpoint-looking text)
+UNTYPED_CARRIERS = ["legacy-sse-untyped", "legacy-sse-untyped-event-first"]
 
 
 def result_for(helper: str, text: str) -> Dict[str, Any]:
@@ -49,8 +55,9 @@ def result_for(helper: str, text: str) -> Dict[str, Any]:
 def script_messages(step: Dict[str, Any], rid: Any) -> List[dict]:
     out = []
     for k in range(step["notes"]):
+        note_text = TEXTS[PATHY] if step["text"] == PATHY else TEXTS[(k + 1) % 4]
         out.append({"jsonrpc": "2.0", "method": "notifications/message",
-                    "params": {"level": "info", "data": f"n{k} " + TEXTS[(k + 1) % len(TEXTS)], "x": None}})
+                    "params": {"level": "info", "data": f"n{k} " + note_text, "x": None}})
     if step["answer"] == "result":
         out.append({"jsonrpc": "2.0", "id": rid, "result": result_for(step["helper"], TEXTS[step["text"]])})
     else:
@@ -256,9 +263,10 @@ def run_carrier(carrier: str, steps: List[dict], driver: str = "helpers") -> Dic
                 async def handler(rec):
                     if rec.method == "GET":
                         return httpx.Response(200, headers={"content-type": "text/event-stream"}, stream=stream)
+                    head = "" if "untyped" in carrier else "event: message\n"
                     for m in script.answer(rec.json()):
-                        stream.feed(("event: message\ndata: " + json.dumps(m, ensure_ascii=False) + "\n\n").encode("utf-8"))
-                    if carrier == "legacy-sse-event-first":
+                        stream.feed((head + "data: " + json.dumps(m, ensure_ascii=False) + "\n\n").encode("utf-8"))
+                    if carrier.endswith("event-first"):
                         # let the event stream reader see the events before the POST's 202 comes back
                         import asyncio as _a
                         for _ in range(8):
@@ -336,6 +344,8 @@ def expected_transcript(steps, assigned=None) -> List[dict]:
 def run_one(ctl: explorer.Ctl, cfg: Dict[str, Any]) -> Dict[str, Any]:
     steps = cfg["steps"]
     carriers = [c for c in CARRIERS if not (c == "http-json" and any(s["notes"] for s in steps))]
+    if cfg.get("untyped"):
+        carriers += UNTYPED_CARRIERS
     results = {c: run_carrier(c, steps, cfg.get("driver", "helpers")) for c in carriers}
     viol: List[dict] = []
 
@@ -382,10 +392,20 @@ def steps_full() -> List[Dict[str, Any]]:
             out.append({"helper": h, "notes": notes, "answer": "error", "code": -32000, "text": 1})
     for h in HELPERS:
         for notes in (0, 1, 3):
-            for t in range(len(TEXTS)):
+            for t in range(4):
                 out.append({"helper": h, "notes": notes, "answer": "result", "text": t})
             for code in ERRORS:
                 out.append({"helper": h, "notes": notes, "answer": "error", "code": code, "text": 1})
+    return out
+
+
+def steps_pathy() -> List[Dict[str, Any]]:
+    """Steps whose result / error message / notification params carry the endpoint-looking text."""
+    out = [{"helper": "raw-id-0", "notes": 1, "answer": "result", "text": PATHY}]
+    for h in HELPERS:
+        for notes in (0, 1, 3):
+            out.append({"helper": h, "notes": notes, "answer": "result", "text": PATHY})
+            out.append({"helper": h, "notes": notes, "answer": "error", "code": -32000, "text": PATHY})
     return out
 
 
@@ -402,8 +422,12 @@ def steps_reduced() -> List[Dict[str, Any]]:
 def run(tier: str, only=None) -> core.Result:
     res = core.Result("C15", "exploration")
     full, red = steps_full(), steps_reduced()
-    cfgs = [{"steps": [s]} for s in full]
+    pathy = steps_pathy()
+    cfgs = [{"steps": [s], "untyped": True} for s in full + pathy]
     cfgs += [{"steps": [a, b]} for a in full for b in full]
+    cfgs += [{"steps": [a, b], "untyped": True} for a in pathy for b in pathy]
+    cfgs += [{"steps": [a, b], "untyped": True} for a in pathy for b in red]
+    cfgs += [{"steps": [a, b], "untyped": True} for a in red for b in pathy]
     if tier == "thorough":
         cfgs += [{"steps": [a, b, c]} for a in red for b in red for c in red]
     out = explorer.explore(RUN, cfgs, fidelity=True)
@@ -418,13 +442,17 @@ def run(tier: str, only=None) -> core.Result:
     out = explorer.explore(RUN, ccfgs, fidelity=True)
     sched.absorb(res, "mcpclient-over-transports", RUN, out, ccfgs)
     sched.debug_pass(res, "conversations", RUN, [c for c in cfgs if len(c["steps"]) == 1], every=1)
-    res.coverage["carrier_runs"] = res.coverage["evaluations"] * len(CARRIERS)
+    res.coverage["carrier_runs"] = res.coverage["evaluations"] * len(CARRIERS) + \
+        len([c for c in cfgs if c.get("untyped")]) * len(UNTYPED_CARRIERS)
     res.coverage["exhaustive"] = True
     res.coverage["rule"] = (
         f"conversation grammar: step = helper in {HELPERS} x 0/1/3 server notifications before the answer x (result with one of "
-        f"{len(TEXTS)} Unicode texts and nested nulls | error code in {ERRORS}); all single-step conversations over the full step set "
+        f"4 Unicode texts and nested nulls | error code in {ERRORS}); all single-step conversations over the full step set "
         "(126) and all 2-step conversations over it (thorough: plus all 3-step conversations over a reduced set of 24 steps); each conversation run through stdio, Streamable HTTP with SSE body, legacy SSE and (when it has no notifications) "
-        "Streamable HTTP with JSON body; legacy SSE in both orders of (202 acknowledgement, answer event); distinct = distinct observation digests"
+        "Streamable HTTP with JSON body; legacy SSE in both orders of (202 acknowledgement, answer event); plus 37 steps whose result, "
+        "error message and notification params carry an endpoint-looking text (/messages/, /mcp, http://x/mcp?a=1): alone, paired with "
+        "each other and paired (both orders) with the reduced step set; those and all single-step conversations additionally over "
+        "legacy SSE with UNTYPED events (both orders); distinct = distinct observation digests"
     )
     res.assumptions = [
         "each carrier is fed its canonical encoding in whole-line / whole-event chunks (framing and encoding variants are decided by C05, C11, C12)",
